@@ -1,12 +1,13 @@
 """C02 — every inhabitant of the generated type deserializes (optional-marker and skip clauses)."""
 from rules import templates as T
+from rules import field_rules as F
 from rules import macro_mir as MM
 
 ASSUMPTIONS = ["tag literals, required-ness beyond `?`, tuple lengths and union arms versus serde's deserializer are NOT decided"]
 
 
 def run(ctx):
-    out = [T.optional_marker_rule(ctx.syn, "C02"), T.variant_matrix_rule(ctx.syn, "C02", rule="C02.R3"), T.variant_tag_rule(ctx.syn, "C02", rule="C02.R4"), T.struct_dispatch_rule(ctx.syn, "C02", rule="C02.R5"), T.optional_table_rule(ctx.syn, "C02"), T.naming_precedence_rule(ctx.syn, "C02", rule="C02.R7"), T.unraw_rule(ctx.syn, "C02", rule="C02.R8"), T.intersection_operand_rule(ctx.syn, "C02", "C02.R9"), T.operand_scanner_rule(ctx.syn, "C02")]
+    out = [T.optional_marker_rule(ctx.syn, "C02"), T.variant_matrix_rule(ctx.syn, "C02", rule="C02.R3"), T.variant_tag_rule(ctx.syn, "C02", rule="C02.R4"), T.struct_dispatch_rule(ctx.syn, "C02", rule="C02.R5"), F.optional_rule(ctx.mir("default")["ts_rs_macros"], "C02"), F.naming_rule(ctx.mir("default")["ts_rs_macros"], "C02", rule="C02.R7"), T.unraw_rule(ctx.syn, "C02", rule="C02.R8"), T.intersection_operand_rule(ctx.syn, "C02", "C02.R9"), T.operand_scanner_rule(ctx.syn, "C02")]
     for fs in ctx.featuresets():
         m = ctx.mir(fs)
         res = [T.is_option_impl_rule(ctx.syn, m["ts_rs"], "C02"), MM.skip_rule(m["ts_rs_macros"], "C02")]
